@@ -266,12 +266,14 @@ class AsyncFIXConnection:
             f" {repr(msg.msg_type)}\n\t {msg_raw.decode()}\n"
         )
 
-        self._socket_writer.write(encoded_msg)
-        await self._socket_writer.drain()
-
+        # Journal first: a message which could have reached the peer must be
+        #   recoverable under its MsgSeqNum, and that number must never be reused
         self._journaler.persist_msg(
             encoded_msg, self._session, MessageDirection.OUTBOUND
         )
+
+        self._socket_writer.write(encoded_msg)
+        await self._socket_writer.drain()
 
     async def send_test_req(self):
         """Sends TestRequest(35=1) and sets TestReqID for expected response from peer.
